@@ -134,6 +134,38 @@ impl Sysline {
     pub fn dt(&self) -> (r: &DateTimeL) ensures *r == self.dt { unimplemented!() }
 }
 
+// ---- real: does the message end with a newline?  (decides whether the coordinator supplies one after the file's last message, C02)
+//@ifunit PRNX
+pub const NLu8_: u8 = 10;
+impl Sysline {
+    pub fn charsz(&self) -> (r: usize) ensures r == 1 { 1 }
+    /// the message's text = its lines' bytes in order
+    pub open spec fn text(&self) -> Seq<u8> { lines_payload(Seq::<u8>::empty(), self.lines@) }
+//@cut fn path=src/data/sysline.rs impl=Sysline name=last_byte ret=r
+//@replace "pub(crate) fn" "pub fn"
+//@spec
+    requires
+        parts_nonempty(self.lines@),
+    ensures
+        // the last byte of the LAST line's LAST part (None only for a message without lines or a last line without parts)
+        self.lines@.len() > 0 && self.lines@.last().lineparts@.len() > 0
+            ==> r == Some(self.lines@.last().lineparts@.last().bytes().last()),
+        self.lines@.len() == 0 || self.lines@.last().lineparts@.len() == 0 ==> r is None,
+//@end
+//@cut fn path=src/data/sysline.rs impl=Sysline name=ends_with_newline ret=r
+//@replace "char::try_from(byte_last)" "verif_char_of(byte_last)"
+//@replace "NLc == char_" "NLu8_ == char_"
+//@spec
+    requires parts_nonempty(self.lines@),
+    ensures
+        self.lines@.len() > 0 && self.lines@.last().lineparts@.len() > 0
+            ==> r == (self.lines@.last().lineparts@.last().bytes().last() == 10u8),
+//@end
+}
+/// stand-in: `char::try_from(u8)` never fails and keeps the code point (compared against NLc = '\n' = 10)
+pub fn verif_char_of(b: u8) -> (r: core::result::Result<u8, ()>) ensures r == Ok::<u8, ()>(b) { Ok(b) }
+//@endif
+
 /// bytes of a line = concatenation of its parts, in order
 pub open spec fn parts_bytes(s: Seq<LinePart>) -> Seq<u8>
     decreases s.len()
@@ -952,11 +984,11 @@ impl PrinterLogMessage {
             }
             let ghost k = it__old.index@ as int;
             let ghost base = lines_payload(self.sys_prefix(syslinep, false, false), syslinep.lines@.take(k));
-//@before "match self.print_line(linep"
+//@before_opt "match self.print_line(linep"
             assert(stdout_lock.view() + self.buffer@ == base + self.sys_prefix(syslinep, false, false));
             assert((stdout_lock.view() + self.buffer@).len() == stdout_lock.view().len() + self.buffer@.len());
             let ghost v1 = stdout_lock.view();
-//@after "printed += p;"
+//@after_opt "printed += p;"
                     assert(stdout_lock.view() + self.buffer@ == base + self.sys_prefix(syslinep, false, false) + parts_bytes(linep.lineparts@));
 //@before "match buffer_flush_or_return__fn"
         proof {
@@ -1013,11 +1045,11 @@ impl PrinterLogMessage {
             }
             let ghost k = it__old.index@ as int;
             let ghost base = lines_payload(self.sys_prefix(syslinep, false, true), syslinep.lines@.take(k));
-//@before "match self.print_line(linep"
+//@before_opt "match self.print_line(linep"
             assert(stdout_lock.view() + self.buffer@ == base + self.sys_prefix(syslinep, false, true));
             assert((stdout_lock.view() + self.buffer@).len() == stdout_lock.view().len() + self.buffer@.len());
             let ghost v1 = stdout_lock.view();
-//@after "printed += p;"
+//@after_opt "printed += p;"
                     assert(stdout_lock.view() + self.buffer@ == base + self.sys_prefix(syslinep, false, true) + parts_bytes(linep.lineparts@));
 //@before "match buffer_flush_or_return__fn"
         proof {
@@ -1073,11 +1105,11 @@ impl PrinterLogMessage {
             }
             let ghost k = it__old.index@ as int;
             let ghost base = lines_payload(self.sys_prefix(syslinep, true, false), syslinep.lines@.take(k));
-//@before "match self.print_line(linep"
+//@before_opt "match self.print_line(linep"
             assert(stdout_lock.view() + self.buffer@ == base + self.sys_prefix(syslinep, true, false));
             assert((stdout_lock.view() + self.buffer@).len() == stdout_lock.view().len() + self.buffer@.len());
             let ghost v1 = stdout_lock.view();
-//@after "printed += p;"
+//@after_opt "printed += p;"
                     assert(stdout_lock.view() + self.buffer@ == base + self.sys_prefix(syslinep, true, false) + parts_bytes(linep.lineparts@));
 //@before "match buffer_flush_or_return__fn"
         proof {
@@ -1140,11 +1172,11 @@ impl PrinterLogMessage {
                 assert((stdout_lock.view() + self.buffer@).len() == stdout_lock.view().len() + self.buffer@.len());
                 assert(self.sys_prefix(syslinep, true, true).len() == self.pf().len() + dtb@.len());
             }
-//@before "match self.print_line(linep"
+//@before_opt "match self.print_line(linep"
             assert(stdout_lock.view() + self.buffer@ == base + self.sys_prefix(syslinep, true, true));
             assert((stdout_lock.view() + self.buffer@).len() == stdout_lock.view().len() + self.buffer@.len());
             let ghost v1 = stdout_lock.view();
-//@after "printed += p;"
+//@after_opt "printed += p;"
                     assert(stdout_lock.view() + self.buffer@ == base + self.sys_prefix(syslinep, true, true) + parts_bytes(linep.lineparts@));
 //@before "match buffer_flush_or_return__fn"
         proof {
@@ -1584,7 +1616,7 @@ impl PrinterLogMessage {
 //@mutate "&mut self.buffer, prepend_file," "&mut self.buffer, dtb,"
 //@end
 
-//@cut fn path=src/printer/printers.rs impl=PrinterLogMessage name=print_fixedstruct_color ret=r
+//@cut fn path=src/printer/printers.rs impl=PrinterLogMessage name=print_fixedstruct_color ret=r rlimit=200
 //@spec
     requires
         old(self).buffer@.len() == 0,
